@@ -140,50 +140,7 @@ impl LineBoundaries {
     }
 //#end
 }
-//#item file=src/authorship/attribution_tracker.rs kind=fn name=floor_char_boundary
-fn floor_char_boundary(content: &str, idx: usize) -> (r_: usize)
-//@     ensures
-//@         r_ <= content.spec_bytes().len(), r_ <= idx,
-//@         is_char_boundary(content.spec_bytes(), r_ as int),
-//@         forall|j: int| r_ < j <= idx && j <= content.spec_bytes().len() ==> !is_char_boundary(content.spec_bytes(), j),
-{
-    let mut i = idx.min(content.len());
-    //@ proof { encode_utf8_valid_utf8(content@); is_char_boundary_start_end_of_seq(content.spec_bytes()); }
-    while i > 0 && !content.is_char_boundary(i)
-    //@     invariant
-    //@         i <= content.spec_bytes().len(), i <= idx,
-    //@         is_char_boundary(content.spec_bytes(), 0),
-    //@         forall|j: int| i < j <= idx && j <= content.spec_bytes().len() ==> !is_char_boundary(content.spec_bytes(), j),
-    //@     decreases i,
-    {
-        i -= 1;
-    }
-    i
-}
-//#end
-//#item file=src/authorship/attribution_tracker.rs kind=fn name=ceil_char_boundary
-fn ceil_char_boundary(content: &str, idx: usize) -> (r_: usize)
-//@     ensures
-//@         r_ <= content.spec_bytes().len(),
-//@         r_ >= idx || r_ == content.spec_bytes().len(),
-//@         is_char_boundary(content.spec_bytes(), r_ as int),
-//@         forall|j: int| idx <= j < r_ ==> !is_char_boundary(content.spec_bytes(), j),
-{
-    let mut i = idx.min(content.len());
-    //@ proof { encode_utf8_valid_utf8(content@); is_char_boundary_start_end_of_seq(content.spec_bytes()); }
-    while i < content.len() && !content.is_char_boundary(i)
-    //@     invariant
-    //@         i <= content.spec_bytes().len(),
-    //@         i >= idx || i == content.spec_bytes().len(),
-    //@         is_char_boundary(content.spec_bytes(), content.spec_bytes().len() as int),
-    //@         forall|j: int| idx <= j < i ==> !is_char_boundary(content.spec_bytes(), j),
-    //@     decreases content.spec_bytes().len() - i,
-    {
-        i += 1;
-    }
-    i
-}
-//#end
+//#include ../_shared/char_boundary_fns.inc.rs
 //#item file=src/authorship/attribution_tracker.rs kind=fn name=line_attributions_to_attributions
 pub fn line_attributions_to_attributions(
     line_attributions: &Vec<LineAttribution>,
